@@ -18,12 +18,16 @@
       `B` with `s·y > 0` is symmetric, satisfies the secant equation `B⁺ s = y`, and is
       positive definite; by induction (`bfgs_chain_posdef`) the dense matrix obtained by
       applying any list of positive-curvature pairs to `theta·I`, `theta > 0`, is SPD.
+    * `compact_secant`: the COMPACT representation itself, `θ I − W N⁻¹ Wᵀ` with `W = [Y θS]`,
+      `N = [[−D, Lᵀ], [L, θ SᵀS]]`, satisfies the secant equation of the newest pair whenever `N`
+      is invertible (direct computation, any field) — the property that pins `B` down along `s`.
   That the *compact* representation used by the code (`theta I − W M Wᵀ`, through the
   triangular factors) equals this dense recursion is decided by the correspondence check
   against both the Lean `Float` model and an independent dense recursion (tolerance scaled by
   conditioning) — stated in the evidence as the part not carried by a theorem.
 -/
 import LbfgsbVerif.Model.Memory
+import LbfgsbVerif.Proofs.CompactSecant
 import Mathlib.Order.Defs.LinearOrder
 import Mathlib.LinearAlgebra.Matrix.DotProduct
 import Mathlib.Data.Matrix.Mul
@@ -32,6 +36,7 @@ import Mathlib.Tactic.Ring
 import Mathlib.Tactic.FieldSimp
 import Mathlib.Tactic.Linarith
 import Mathlib.Tactic.Positivity
+import Mathlib.Algebra.Order.Field.Rat
 
 namespace Lbfgsb.C10
 open Lbfgsb
@@ -217,6 +222,31 @@ theorem scaled_identity_spd (theta : K) (ht : 0 < theta) : SPD (theta • (1 : M
     linarith
   positivity
 
+/-- **C10 (F5)** the compact representation satisfies the secant equation of the newest pair. -/
+theorem compact_secant {ι : Type} [Fintype ι] [DecidableEq ι] [LinearOrder ι]
+    (S Y : Matrix n ι K) (θ : K) (Ninv : Matrix (ι ⊕ ι) (ι ⊕ ι) K)
+    (hN : Ninv * Compact.N S Y θ = 1) (j0 : ι) (hmax : ∀ i, i ≤ j0) :
+    (θ • (1 : Matrix n n K) - Compact.W S Y θ * Ninv * (Compact.W S Y θ)ᵀ) *ᵥ (fun k => S k j0) = fun k => Y k j0 :=
+  Compact.compact_secant S Y θ Ninv hN j0 hmax
+
 end F
+
+
+/-! ### Non-vacuity of `compact_secant`: one pair `s = 1, y = 2` in dimension one, `θ = 2`: `N = diag(−2, 2)` is
+invertible -/
+section nonvacuous_compact
+open Matrix
+def S1 : Matrix Unit Unit ℚ := Matrix.of fun _ _ => 1
+def Y1 : Matrix Unit Unit ℚ := Matrix.of fun _ _ => 2
+theorem A1 : Compact.A S1 Y1 = Matrix.of fun _ _ => (2 : ℚ) := by
+  ext i j; simp [Compact.A, Matrix.mul_apply, S1, Y1]
+theorem SS1 : S1ᵀ * S1 = Matrix.of fun _ _ => (1 : ℚ) := by
+  ext i j; simp [Matrix.mul_apply, S1]
+example : (Matrix.fromBlocks (Matrix.of fun _ _ => (-1/2 : ℚ)) 0 0 (Matrix.of fun _ _ => (1/2 : ℚ)) :
+    Matrix (Unit ⊕ Unit) (Unit ⊕ Unit) ℚ) * Compact.N S1 Y1 2 = 1 := by
+  unfold Compact.N Compact.D Compact.L
+  rw [A1, SS1]
+  ext (i | i) (j | j) <;> simp [Matrix.mul_apply, Matrix.fromBlocks]
+end nonvacuous_compact
 
 end Lbfgsb.C10
